@@ -565,6 +565,8 @@ func init() {
 				c.Count("records:bucket-above-1MiB")
 			}
 		}
+		// InsertionIndex.Marshal / Unmarshal (kinds iiser, iiread)
+		c11InsertionCborCases(c)
 		// raw random bytes through ReadFrom
 		for k := 0; k < 40*c.Scale; k++ {
 			r := c.R.Fork()
@@ -579,3 +581,71 @@ func init() {
 
 var _ = sort.Ints
 var _ = bytes.Equal
+
+// c11InsertionCborCases: record sets through InsertionIndex.Marshal/Unmarshal, each in the three modes
+// of prop_iiser (reported length, round trip, different indexes => different bytes), and a malformed
+// stream through Unmarshal.
+func c11InsertionCborCases(c *Ctx) {
+	n := 40 * c.Scale
+	for a := 0; a < n; a++ {
+		r := c.R.Fork()
+		rs, _ := genRecordSet(r, pick(r, []int{0, 0, 1, 1, 2, 3, 5, 9}))
+		// records2: the same offsets under other CIDs (what Marshal cannot tell apart), or another set
+		var rs2 []idxRec
+		if r.Chance(70) {
+			for _, x := range rs {
+				rs2 = append(rs2, idxRec{c11RawCid(0x71, 0x12, r.Bytes(32)), x.Off})
+			}
+		} else {
+			rs2, _ = genRecordSet(r, len(rs))
+		}
+		var trailer []byte
+		if r.Chance(40) {
+			trailer = r.Bytes(1 + r.Intn(12))
+		}
+		plain := r.Bool()
+		obs, full := runIISerImpl(rs, rs2, trailer, plain)
+		tab := c11RecDecTable(full)
+		for mode := uint64(0); mode < 3; mode++ {
+			c.Emit("iiser", VL{VN(mode), recsVal(rs), recsVal(rs2), VB(trailer), tab}, obs, len(rs) > 0)
+		}
+		if len(rs) == 0 {
+			c.Count("insertion-cbor:empty-index")
+		} else {
+			c.Count("insertion-cbor:non-empty-index")
+		}
+		// malformed: truncations, count field, bytes of the first record
+		good := full
+		emit := func(b []byte, what string) {
+			c.Emit("iiread", VL{VB(b), c11RecDecTable(b)}, c11IIUnmarshal(b, r.Bool()), true)
+			c.Count("insertion-cbor-malformed:" + what)
+		}
+		for k := 0; k <= len(good) && k < 40; k++ {
+			emit(good[:k], "truncated")
+		}
+		for t := 0; t < 12; t++ {
+			g := append([]byte(nil), good...)
+			switch r.Intn(4) {
+			case 0:
+				v := pick(r, []uint64{0, 1, 2, 1<<63 - 1, 1 << 63, 1<<64 - 1})
+				for len(g) < 8 {
+					g = append(g, 0)
+				}
+				binary.LittleEndian.PutUint64(g, v)
+				emit(g, "count")
+			case 1:
+				if len(g) > 8 {
+					g[8+r.Intn(len(g)-8)] ^= pick(r, []byte{0x01, 0x20, 0x80, 0xff})
+					emit(g, "byteflip")
+				}
+			case 2: // a count followed by arbitrary CBOR-looking bytes
+				g = append(g[:0], 1, 0, 0, 0, 0, 0, 0, 0)
+				g = append(g, pick(r, [][]byte{{0xa0}, {0x00}, {0xf6}, {0x80}, {0xa1, 0x66, 0x4f, 0x66, 0x66, 0x73, 0x65, 0x74, 0x01}, {0xa1, 0x63, 0x43, 0x69, 0x64, 0x41, 0x00}, {0xbf, 0xff}, {0x5f, 0xff}, {0xa1}, {0x1b, 0xff}, {0xc0, 0x00}, {0xfb, 0, 0, 0, 0, 0, 0, 0, 0}})...)
+				g = append(g, r.Bytes(r.Intn(4))...)
+				emit(g, "cbor-shapes")
+			case 3:
+				emit(r.Bytes(r.Intn(30)), "random")
+			}
+		}
+	}
+}
